@@ -39,6 +39,7 @@ def base_theory(**over):
         kbThr=1.0,
         ktThr=1.0,
         MaxNfPdf=6,
+        MaxNfAs=6,
         MP=0.938,
         Q0=1.65,
         HQ="POLE",
